@@ -7,9 +7,9 @@ package c03
 // alerts" to the code where the sequential histories of TestCheck cannot: conflicting updates of the SAME source
 // alert published to the provider AT ONCE.
 //
-// Per round: a fresh real provider/mem.Alerts, a running real inhibit.Inhibitor subscribed to it (one rule:
-// sev=crit inhibits sev=warn on equal cluster), and a few plain subscribers (one of them slow, so that subscriber
-// channels fill up). Then 2-4 goroutines Put, all at once and in several large batches each, conflicting versions of
+// Per round: a fresh real provider/mem.Alerts, a running real inhibit.Inhibitor subscribed to it (a few of them, each with its own
+// subscription; one rule: sev=crit inhibits sev=warn on equal cluster), and a few plain subscribers (in every other
+// round one of them is slow, so that subscriber channels fill up and Puts wait inside delivery). Then 2-4 goroutines Put, all at once and in several large batches each, conflicting versions of
 // the same source alerts (firing with different end times vs resolved; same StartsAt, so which version the provider
 // ends up holding depends only on the order in which the Puts got the provider). When every Put has returned, a
 // sentinel alert is Put; a subscription is FIFO, so once a subscriber has seen the sentinel it has seen everything
@@ -49,6 +49,7 @@ type RaceParams struct {
 	Lanes      int    `json:"lanes"`       // goroutines calling Put at once, 2..4
 	Batches    int    `json:"batches"`     // Put calls per goroutine
 	Subs       int    `json:"subs"`        // plain subscribers (the first one is slow)
+	Inhibitors int    `json:"inhibitors"`  // running inhibitors subscribed to the provider (each has its own subscription)
 	SlowEvery  int    `json:"slow_every"`  // the slow subscriber pauses after every SlowEvery messages ...
 	SlowMicros int    `json:"slow_micros"` // ... for this long (its channel fills up and Puts have to wait for it)
 	BudgetMs   int    `json:"budget_ms"`   // stop early when this much wall time is used; 0 = no cap
@@ -108,9 +109,13 @@ func raceRun(t *testing.T, p RaceParams) RaceResult {
 		if err != nil {
 			t.Fatal(err)
 		}
-		ih := inhibit.NewInhibitor(prov, cfg, nopLogger, eventrecorder.NopRecorder())
-		go ih.Run()
-		ih.WaitForLoading()
+		ihs := make([]*inhibit.Inhibitor, max(p.Inhibitors, 1))
+		for k := range ihs {
+			ihs[k] = inhibit.NewInhibitor(prov, cfg, nopLogger, eventrecorder.NopRecorder())
+			go ihs[k].Run()
+			ihs[k].WaitForLoading()
+		}
+		slowRound := round%2 == 1 // every other round one subscriber is slow: channels fill up, Puts wait inside delivery
 
 		base := time.Now()
 		sources := make([]model.LabelSet, p.Alerts)
@@ -133,7 +138,7 @@ func raceRun(t *testing.T, p RaceParams) RaceResult {
 			st := &subState{last: map[model.Fingerprint]*types.Alert{}, done: make(chan struct{})}
 			subs[k] = st
 			it := prov.Subscribe(fmt.Sprintf("plain-%d", k))
-			slow := k == 0
+			slow := k == 0 && slowRound
 			subWG.Add(1)
 			go func() {
 				defer subWG.Done()
@@ -205,11 +210,13 @@ func raceRun(t *testing.T, p RaceParams) RaceResult {
 		}
 		sentinelTarget := raceLabels("warn", round, -1)
 		deadline := time.Now().Add(20 * time.Second)
-		for !ih.Mutes(ctx, sentinelTarget) {
-			if time.Now().After(deadline) {
-				t.Fatalf("concurrent engine: round %d: the inhibitor did not process the sentinel alert within 20 s", round)
+		for _, ih := range ihs {
+			for !ih.Mutes(ctx, sentinelTarget) {
+				if time.Now().After(deadline) {
+					t.Fatalf("concurrent engine: round %d: an inhibitor did not process the sentinel alert within 20 s", round)
+				}
+				time.Sleep(200 * time.Microsecond)
 			}
-			time.Sleep(200 * time.Microsecond)
 		}
 		for k, st := range subs {
 			select {
@@ -252,7 +259,13 @@ func raceRun(t *testing.T, p RaceParams) RaceResult {
 		for i := range sources {
 			target := raceLabels("warn", round, i)
 			want := !stored[i].ResolvedAt(now) // the documented rule: the only source with this cluster value fires
-			got, gotFresh := ih.Mutes(ctx, target), fresh.Mutes(ctx, target)
+			gotFresh := fresh.Mutes(ctx, target)
+			got := gotFresh
+			for _, ih := range ihs {
+				if g := ih.Mutes(ctx, target); g != want {
+					got = g
+				}
+			}
 			if gotFresh != want {
 				fail(&res.StaleInhibitor, "round %d: a fresh inhibitor loaded from the provider says Mutes(%v)=%v but the provider holds the source %s (resolved=%v)",
 					round, target, gotFresh, stored[i].Annotations["v"], !want)
@@ -263,13 +276,15 @@ func raceRun(t *testing.T, p RaceParams) RaceResult {
 			}
 		}
 		fresh.Stop()
-		ih.Stop()
+		for _, ih := range ihs {
+			ih.Stop()
+		}
 		close(quit)
 		subWG.Wait()
 		prov.Close()
 		cancel()
-		if res.StaleInhibitor+res.StaleSubscriber > 0 {
-			break
+		if res.StaleInhibitor > 0 {
+			break // (a subscriber-only finding keeps the engine running: the property's own clause is the inhibitor's verdict)
 		}
 	}
 	res.Millis = time.Since(t0).Milliseconds()
@@ -277,7 +292,7 @@ func raceRun(t *testing.T, p RaceParams) RaceResult {
 }
 
 func racePlan(env vh.Env) RaceParams {
-	p := RaceParams{Seed: env.Seed ^ 0x63303372616365, Rounds: 40, Alerts: 150, Lanes: 4, Batches: 3, Subs: 3, SlowEvery: 64, SlowMicros: 200, BudgetMs: 10000, Note: raceNote}
+	p := RaceParams{Seed: env.Seed ^ 0x63303372616365, Rounds: 40, Alerts: 150, Lanes: 4, Batches: 3, Subs: 3, Inhibitors: 3, SlowEvery: 8, SlowMicros: 100, BudgetMs: 10000, Note: raceNote}
 	if env.Tier == "thorough" {
 		p.Rounds, p.BudgetMs = 600, 90000
 	}
